@@ -106,6 +106,7 @@ def run(prog, run):
     digest(prog, run)
     managers(prog, run)
     roles(prog, run)
+    arg_chains(prog, run)
 
 
 # --------------------------------------------------------------------------- SCRAM
@@ -568,3 +569,55 @@ def roles(prog, run):
         run.ok(r4, fn.loc(), 'every hash/HMAC/PBKDF2 uses m_mechanism.qtAlgorithm()')
     else:
         run.violation(r4, 'QXmppSaslClientScram::respond#hash-source', fn.loc(), 'more than one hash algorithm source in the SCRAM computation: %s' % sorted(algs))
+
+
+# --------------------------------------------------------------------------- R5
+def _chained_args(f):
+    """QString::arg calls whose format string is the result of another arg() that substituted run-time text: the inserted text is scanned again, so a
+    "%2" inside the first value is replaced by the second"""
+    out = []
+    for i, n in f.calls('QString::arg'):
+        if n.get('obj') is None:
+            continue
+        inner = f.nodes[f.skip(n['obj'])]
+        if inner['k'] != 'call' or f.cname(inner) != 'QString::arg':
+            continue
+        real = [a for a in inner.get('args', []) if f.nodes[a]['k'] != 'defarg']
+        if not real:
+            continue
+        a0 = f.nodes[f.skip(real[0])]
+        t = (f.nodes[real[0]].get('t') or a0.get('t') or '')
+        stringish = any(x in t for x in ('QString', 'QStringView', 'QLatin1String', 'QByteArray', 'char')) or a0['k'] in ('call', 'mem', 'var') and not any(
+            x in t for x in ('int', 'long', 'short', 'double', 'float', 'bool', 'qint', 'quint', 'size_t'))
+        if a0['k'] in ('str', 'int', 'char'):
+            continue
+        if stringish:
+            out.append((i, f.fmt(real[0])[:50]))
+    return out
+
+
+def arg_chains(prog, run):
+    import os
+    from .. import build, facts
+    rid = run.rule('C06.R5', 'no text that enters a SASL response or hash is assembled with chained QString::arg(): a user name, realm, nonce or password containing "%N" would be '
+                             'rewritten by the following substitution (one multi-argument arg() is fine)', floor=1)
+    cpath = os.path.join(build.VERIF, 'controls', 'c06_controls.cpp')
+    cprog = facts.Program(build.extract_control(cpath, like_unit='base/QXmppSasl.cpp'))
+    got = {g.name for g in cprog.fns.values() if _chained_args(g)}
+    if 'chained_arg' not in got or 'safe_multi_arg' in got:
+        raise AnalysisBroken('C06.R5: positive control not recognised (reported: %s)' % sorted(got))
+    n = bad = 0
+    for f in prog.fns.values():
+        if not f.file.endswith(('QXmppSasl.cpp', 'QXmppSaslManager.cpp')) or f.raw.get('dependent'):
+            continue
+        n += 1
+        for i, what in _chained_args(f):
+            bad += 1
+            run.instance(rid)
+            run.violation(rid, '%s#chained-arg' % f.outer_name(), f.loc(i),
+                          '%s builds protocol text with chained arg(): the value substituted first (%s) is scanned again by the next arg(), so a "%%2"/"%%3" in it is '
+                          'replaced - the hashed / transmitted string is not the one the RFC prescribes for such credentials' % (f.display()[:50], what))
+    if bad:
+        return
+    run.instance(rid)
+    run.ok(rid, 'src/base/QXmppSasl.cpp', 'no chained arg() over run-time text in %d SASL functions (control in controls/c06_controls.cpp is reported)' % n)
